@@ -7,6 +7,7 @@ class C33(Spec):
     harness = "h_c33"
     required_theorems = ("C33.node_survives", "C33.tick_total", "C33.recovered_paths", "C33.recvLt_wellformed_total",
                          "C33.dlReply_total", "C33.dlReply_checks_height", "C33.dlOld_panic_iff", "C33.reqTick_total",
+                         "C33.no_lock_left_behind", "C33.loops_stay_alive", "C33.explicit_unlock_would_wedge",
                          "C33.old_pend_tick_panicked", "C33.old_denied_tick_panicked", "C33.witnesses_survive")
     partial = ()
     refuted = ()
@@ -18,14 +19,17 @@ class C33(Spec):
                   "blocks have a hash for every empty slot, no nil message queued); the two former crashes (a pooled group "
                   "expanded past len(Txs) inside pendBlockLoop; a nil queue message dereferenced by manageDeniedPeer with two p2p "
                   "types) are kept as regression witnesses over the old definitions; paths under a recover cannot kill the "
-                  "process; "
+                  "process; liveness half: no reachable state holds a lock of the light-broadcast/validator state, so every "
+                  "background loop can step (lock discipline per function is a go/ast fact); "
                   "download reply decoding, the new download handler and the version/peer-info handlers are total; the old "
                   "download handler panics exactly on an absent Message (recovered). Tie: abstract inputs are concretised "
                   "into real protobuf messages / stream frames and pushed through the real functions (receive path with its "
                   "recover, loop bodies stepped tick by tick, validators, handlers behind RegisterStreamHandler), outcome "
                   "compared line by line with the model; byte-level mutants go through the abstraction function; which "
                   "functions carry a deferred recover and whether the stepped loop bodies equal the production ones is "
-                  "re-read from the source (go/ast) on every run; both former crash inputs are also run in a child process with the "
+                  "re-read from the source (go/ast) on every run; every call into the code under test runs under a watchdog (a call "
+                  "that does not return is the predicate failure stuck-after-peer-input, with the inputs so far), and after "
+                  "malformed inputs every loop is stepped and a well-formed light block must be processed (liveness probe); both former crash inputs are also run in a child process with the "
                   "production goroutines, which must survive.")
     level_note = ("partial: libp2p / gossipsub / protobuf / snappy internals and memory exhaustion (txCount between 2^16 and "
                   "2^45 really allocates) are not modelled; the local mempool and blockchain modules are scripted (one reply "
